@@ -1,13 +1,25 @@
 package main
 
 import (
+	"strings"
 	"time"
 
 	"verif/harness/ev"
 	"verif/harness/mon"
+	"verif/harness/sched"
 )
 
 func init() {
+	// "badgernode:<node>:<cache>:<base…>": the base scenario with <node> on a BadgerStore with a small cache
+	// (everything it reports for old blocks comes from the database)
+	sched.RegisterScenario("badgernode", func(p []string) *sched.Scenario {
+		node, cache := atoi(p[1]), atoi(p[2])
+		sc := sched.ScenarioByName(strings.Join(p[3:], ":"))
+		sc.Cfg.Badger = map[int]bool{node: true}
+		sc.Cfg.CacheOf = map[int]int{node: cache}
+		sc.Cfg.Dir = scratchDir()
+		return sc
+	})
 	monitorCtors["C04"] = func(st *mon.Stats) mon.Monitor { return mon.NewOrder() }
 	monitorCtors["C05"] = func(st *mon.Stats) mon.Monitor { return mon.NewIntegrity() }
 	monitorCtors["C10"] = func(st *mon.Stats) mon.Monitor { return mon.NewValSets() }
